@@ -12,7 +12,7 @@ cp $V/sim/zsimrt/*.go "$S/repo/zsimrt/"
 if [ ! -x $V/bin/instrument ] || [ $V/sim/instrument/main.go -nt $V/bin/instrument ]; then
   (cd $V/sim/instrument && go build -o $V/bin/instrument .)
 fi
-$V/bin/instrument -root "$S/repo" timeout kvs/inmem kvs/distlock kvs/redis container/lru container/bytes chans ulidutils > "$S/instrument.jsonl"
+$V/bin/instrument -root "$S/repo" timeout kvs/inmem kvs/distlock kvs/redis container/lru container/iterable container/bytes chans ulidutils > "$S/instrument.jsonl"
 (cd $V/sim/overlay && find . -name '*.go' | while read f; do mkdir -p "$S/repo/$(dirname $f)"; cp "$f" "$S/repo/$f"; done)
 python3 - "$S" <<'PY'
 import sys
